@@ -101,6 +101,7 @@ fn search(contract: &str, seed: u64, budget: u64) -> i32 {
     if c == "serve_crash" { return serve_w::crash_search(false, budget > 60); }
     if c == "second_run" { return oneway_w::noop_search(false); }
     if c == "delivers_plan" { return oneway_w::plan_search(false); }
+    if c == "dry_run" { return oneway_w::dry_search(false); }
     if c == "hub_sync" || c.ends_with("::hub_sync") { return hub_w::search(false); }
     if c.ends_with("run_bisync") || c == "bisync" || c.ends_with("apply") || c.ends_with("copy_atomic") || c.contains("Archive::") {
         return bisync_w::search(c, false);
@@ -111,6 +112,7 @@ fn search(contract: &str, seed: u64, budget: u64) -> i32 {
     if c == "oneway" || c.starts_with("deliver_") || c.ends_with("transfer_file_from_remote") || c.ends_with("transfer_file_to_remote") || c.ends_with("tmp_path") {
         return oneway_w::search(false, budget > 60);
     }
+    if c == "run_local" || c == "run_remote" || c == "print_plan" { let a = oneway_w::dry_search(false); let b = oneway_w::plan_search(false); return a.max(b); }
     if c.ends_with("sync_files") { return cli_w::search("cli_sync_files", seed, false); }
     if c.starts_with("run_") || c.starts_with("cli") {
         return cli_w::search(c, seed, false);
@@ -140,6 +142,7 @@ fn run(w: &str) -> i32 {
         "oneway" => oneway_w::run_w(w),
         "oneway-noop" => oneway_w::run_noop(w),
         "oneway-plan" => oneway_w::run_plan(w),
+        "oneway-dry" => oneway_w::run_dry(w),
         "bisync" => bisync_w::run_w(w),
         "bisync-trace" => bisync_w::run_trace(w),
         "bisync-crash" => bisync_w::run_crash(w),
@@ -180,6 +183,7 @@ fn twin(name: &str, seed: u64, budget: u64) -> i32 {
         "hub_sync_runs" => hub_w::search(true),
         "second_run_noop" => oneway_w::noop_search(true),
         "delivers_plan" => oneway_w::plan_search(true),
+        "dry_run_inert" => oneway_w::dry_search(true),
         "bisync_histories" => bisync_w::search_t("bisync", true, seed, budget),
         "signature_generate" => engine_w::twin_signature_generate(seed, budget),
         "signature_structure" => engine_w::twin_signature_structure(seed, budget),
